@@ -25,8 +25,8 @@ REQUIRED_THEOREMS = [
     "Cv.C17.logistic_neg", "Cv.C17.logistic_pos", "Cv.C17.logistic_lt_one", "Cv.C17.logistic_strictMono",
     "Cv.C17.logit_logistic", "Cv.C17.logistic_logit", "Cv.C17.logit_rejects",
     "Cv.C17.softmax_pos", "Cv.C17.softmax_sum", "Cv.C17.softmax_order", "Cv.C17.softmax_shift",
-    "Cv.C17.softmax_eq_exp_div", "Cv.C17.softmax_args_nonpos",
-    "Cv.C17.boxcox_defined_iff", "Cv.C17.boxcox_formula", "Cv.C17.boxcox_zero",
+    "Cv.C17.softmax_eq_exp_div", "Cv.C17.softmax_args_nonpos", "Cv.C17.softmax_denominator_ge_one",
+    "Cv.C17.boxcox_defined_iff", "Cv.C17.boxcox_formula", "Cv.C17.boxcox_zero", "Cv.C17.boxcox_limit",
     "Cv.C17.boxcoxShifted_defined_iff", "Cv.C17.boxcoxShifted_eq",
 ]
 RULE = ("binom_coeff on every (n,k) with n <= 67 (2346 pairs, incl. k > n probes) and on n up to 2^64-1 around the "
